@@ -33,6 +33,8 @@ PASS = ("core::clone::Clone::clone", "alloc::borrow::ToOwned::to_owned", "alloc:
         "corgi::array::Array::with_children", "corgi::array::Array::with_backward_op", "corgi::array::Array::tracked",
         "corgi::array::Array::untracked", "corgi::array::Array::values")
 FROM_ARRAY = "<corgi::array::Array as core::convert::From<("
+# shape-changing / reducing array functions of the public API: opaque function symbols for the formula rules R34 / R35
+UNINTERPRETED = ("matmul", "conv", "sum", "sum_all")
 
 
 class Abstain(Exception):
@@ -70,6 +72,7 @@ class SymEval:
         self.ctor_forward = ctor_forward      # callback: (ctor body, [arg values]) -> value
         self.depth = 0
         self.divisors = []                    # every value something was divided by (syntactically) since the last reset
+        self.uninterp = False                 # R34/R35: shape-changing array functions and callable fields become opaque atoms
 
     # ------------------------------------------------------------ environment
     def force(self, v):
@@ -157,7 +160,7 @@ class SymEval:
         if k == "Literal":
             lv = lit_value(e)
             if isinstance(lv, bool):
-                return ("unk", "bool")
+                return ("b", lv)
             if lv is None:
                 return ("unk", "literal")
             from fractions import Fraction
@@ -192,8 +195,19 @@ class SymEval:
                 if base[0] == "arr" and e.get("name") == "values":
                     return ("v", base[1])
                 if e.get("name") == "dimensions":
-                    return ("dims",)
+                    return ("dims", repr(base[1]) if base[0] == "arr" else "?")
                 return ("unk", "field %s" % e.get("name"))
+            if self.uninterp and e.get("adt") and e.get("adt_local"):
+                # a field of a layer / model / optimizer struct: an opaque named value of the field's type
+                nm = "f:%s" % e.get("name")
+                fty = e.get("ty") or ""
+                if fty in (ARRAY, "&" + ARRAY):
+                    return ("arr", self.alg.atom(nm))
+                if fty == "core::option::Option<%s>" % ARRAY:
+                    return ("opt", ("arr", self.alg.atom(nm)))
+                if "dyn" in fty and "Fn" in fty or "Activation" in fty or "CostFunction" in fty or "Initializer" in fty:
+                    return ("ufn?", nm) if fty.startswith("core::option::Option<") else ("ufn", nm)
+                return ("opaque", nm)
             base = self.ev(e["e"], env)
             idx = e.get("idx")
             if idx is not None:
@@ -206,7 +220,11 @@ class SymEval:
                 return self.force(base[1][i])
             if base[0] == "v":
                 return ("s", base[1])          # one element of an element-wise vector
+            if base[0] == "dims" and isinstance(i, int) and self.uninterp:
+                return ("s", self.alg.atom("dim%d[%s]" % (i, base[1])))
             return ("unk", "index of %s" % base[0])
+        if k == "Match" and self.uninterp:
+            return self.ev_match(e, env)
         if k == "Adt" and e.get("adt") == OPTION:
             if e.get("variant") == "Some":
                 return ("opt", self.ev(e["fields"][0]["e"], env))
@@ -251,6 +269,53 @@ class SymEval:
             return ("s", PW(key, t[1], f[1]))
         # any other condition (tracking flags): both branches are possible values
         return self.mk_alt([t, f])
+
+    def ev_match(self, e, env):
+        sv = self.ev(e["scrutinee"], env)
+        outs = []
+        for x in self.alts(sv):
+            for a in e["arms"]:
+                p = a["pat"]
+                while isinstance(p, dict) and p.get("k") in ("Deref", "DerefPattern"):
+                    p = p["sub"]
+                if p.get("k") == "Variant" and p.get("adt") == OPTION:
+                    if p.get("variant") == "Some":
+                        if x[0] == "ufn?":
+                            inner = ("ufn", x[1])
+                        elif x[0] == "opt" and x[1] is not None:
+                            inner = x[1]
+                        elif x[0] == "opt":
+                            continue
+                        else:
+                            outs.append(("unk", "match on %s" % x[0]))
+                            continue
+                        e2 = Env(env)
+                        for s_ in p.get("subs", []):
+                            self.bind(s_["pat"], inner, e2)
+                        outs.append(self.ev(a["body"], e2))
+                    else:
+                        if x[0] == "opt" and x[1] is not None:
+                            continue
+                        outs.append(self.ev(a["body"], env))
+                else:
+                    outs.append(("unk", "match arm pattern %s" % p.get("k")))
+        return self.mk_alt(outs) if outs else ("unk", "match without value")
+
+    def canon(self, v):
+        v = self.force(v)
+        if v[0] in ("s", "v", "arr"):
+            return repr(v[1])
+        if v[0] == "b":
+            return "T" if v[1] else "F"
+        if v[0] == "tup":
+            return "(" + ",".join(self.canon(x) for x in v[1]) + ")"
+        if v[0] == "opt":
+            return "None" if v[1] is None else "Some(" + self.canon(v[1]) + ")"
+        if v[0] in ("opaque", "ufn"):
+            return v[1]
+        if v[0] == "dims":
+            return "dims[%s]" % v[1]
+        raise Abstain("argument outside the algebra (%s)" % (v[1] if v[0] == "unk" else v[0]))
 
     def alts(self, v):
         v = self.force(v)
@@ -314,6 +379,11 @@ class SymEval:
             if len(args) == 2:
                 return self.arith(f[1], self.force(args[0]), self.force(args[1]))
             return ("unk", "function item arity")
+        if f[0] == "ufn" and self.uninterp:
+            try:
+                return ("arr", self.alg.atom("call:%s[%s]" % (f[1], "|".join(self.canon(a) for a in args))))
+            except Abstain as ex:
+                return ("unk", str(ex))
         if f[0] != "clo":
             return ("unk", "call of %s" % f[0])
         cb = self.facts.body(f[1])
@@ -409,6 +479,8 @@ class SymEval:
             f = self.ev(args[0], env)
             t = self.ev(args[1], env)
             return self.apply(f, [self.force(x) for x in t[1]] if t[0] == "tup" else [])
+        if e.get("fun") is not None and not c:
+            pass
         els = vec_literal_elems(e)
         if els is not None:
             return ("vecA", [Lazy(x, env) for x in els])
@@ -421,7 +493,35 @@ class SymEval:
                 return ("s", base[1])
             return ("unk", "index of %s" % base[0])
         if r == "corgi::array::Array::dimensions":
-            return ("dims",)
+            a = self.ev(args[0], env) if args else ("unk", "")
+            return ("dims", repr(a[1]) if a[0] == "arr" else "?")
+        if self.uninterp:
+            if c == "core::iter::traits::iterator::Iterator::product" and args:
+                a = self.ev(args[0], env)
+                if a[0] == "dims":
+                    return ("s", self.alg.atom("count[%s]" % a[1]))
+            if c == "core::iter::traits::iterator::Iterator::sum" and args:
+                a = self.ev(args[0], env)
+                if a[0] == "v" and not isinstance(a[1], PW):
+                    return ("s", self.alg.atom("sigma[%r]" % a[1]))
+            if c in ("alloc::vec::Vec::<T, A>::len", "core::slice::<impl [T]>::len") and args:
+                a = self.ev(args[0], env)
+                if a[0] == "v":
+                    return ("s", self.alg.atom("count[%r]" % a[1]))
+            if c in ("core::option::Option::<T>::unwrap", "core::option::Option::<T>::as_ref", "core::option::Option::<T>::expect") and args:
+                a = self.ev(args[0], env)
+                if a[0] == "opt" and a[1] is not None:
+                    return self.force(a[1]) if c.endswith("unwrap") or c.endswith("expect") else a
+                return a if a[0] == "opt" else ("unk", "option method on %s" % a[0])
+            if cal.get("resolved_local"):
+                tb = self.facts.body(cal.get("resolved"))
+                if tb is not None and tb.get("impl_self") == ARRAY and tb.get("impl_trait_def") is None and tb.get("name") in UNINTERPRETED:
+                    try:
+                        key = "%s[%s]" % (tb["name"], "|".join(self.canon(self.ev(a, env)) for a in args))
+                    except Abstain as ex:
+                        return ("unk", str(ex))
+                    kind = "s" if (tb.get("output") or "") == self.fl else "arr"
+                    return (kind, self.alg.atom(key))
         if cal.get("resolved_local"):
             return self.local_call(e, env, [self.ev(a, env) for a in args])
         return ("unk", "call of %s" % (r or c))
